@@ -247,6 +247,12 @@ def check_setup(c, repo, sync):
     sp_ = [n for n in fr if any(callee_last(k) == 'set_prompt' for k in node_calls(n))]
     okf = len(sp_) == 1 and 'prompt_change.format(new_prompt, continuation_prompt)' in norm(sp_[0].ast)
     c.check(okf, init, sp_[0].ast if sp_ else t[0].ast, 'the prompt change command is formatted with (new prompt, continuation prompt) in that order', kind='ast', tag='format-order')
+    spf = repo.func('replwrap:REPLWrapper.set_prompt')
+    gsp = spf.cfg
+    ex_ = cfg_nodes_with_call(spf, lambda k: callee_last(k) == 'expect' and k.args and is_name(k.args[0], spf.params[1]))
+    sl_ = cfg_nodes_with_call(spf, lambda k: callee_last(k) == 'sendline' and k.args and is_name(k.args[0], spf.params[2]))
+    c.check(len(ex_) == 1 and len(sl_) == 1 and gsp.dominated_by(sl_[0][0], {ex_[0][0]})[0] and gsp.dominated_by(gsp.exit, {sl_[0][0]})[0], spf,
+            sl_[0][1] if sl_ else None, 'set_prompt waits for the original prompt, then sends the prompt-change command (once)', kind='path', tag='set-prompt')
     sy = [n for n, k in cfg_nodes_with_call(init, lambda k: callee_last(k) == '_expect_prompt')]
     cp = [n for n in gi.nodes if n.kind == 'stmt' and stmt_assigns_attr(n.ast, 'continuation_prompt') is not None]
     ok = len(sy) == 1 and gi.dominated_by(gi.exit, {sy[0]})[0] and bool(cp) and gi.dominated_by(sy[0], {cp[0]})[0] and all(gi.dominated_by(sy[0], {p})[0] or True for p in p1 + p2)
@@ -268,6 +274,7 @@ MUTANTS = [
     ('ps2-wrong-const', 'replwrap', "    ps2 = PEXPECT_CONTINUATION_PROMPT[:5] + non_printable_insert + PEXPECT_CONTINUATION_PROMPT[5:]", "    ps2 = PEXPECT_CONTINUATION_PROMPT[:5] + non_printable_insert + PEXPECT_PROMPT[5:]", 'D4'),
     ('no-trailing-line', 'replwrap', "        if command.endswith('\\n'):\n            cmdlines.append('')\n", "", 'D5'),
     ('format-swapped', 'replwrap', "prompt_change.format(new_prompt, continuation_prompt))", "prompt_change.format(continuation_prompt, new_prompt))", 'D5'),
+    ('set-prompt-no-wait', 'replwrap', "        self.child.expect(orig_prompt)\n        self.child.sendline(prompt_change)", "        self.child.sendline(prompt_change)", 'D5'),
     ('first-line-twice', 'replwrap', "        res = []\n        self.child.sendline(cmdlines[0])\n        for line in cmdlines[1:]:", "        res = []\n        self.child.sendline(cmdlines[0])\n        for line in cmdlines:", 'D1'),
 ]
 PRESERVING = []
